@@ -410,6 +410,14 @@ class TGen:
             env[-1][name] = ty
             f("let")
             return N("let", ty, [f"let {name}{ann} = ", e, ";"], name=name, annotated=bool(ann))
+        if c < 0.27:
+            # initialisers whose own type contains `any`: the annotation decides
+            f("let-any")
+            name = self.fresh()
+            ty, lit, lty = r.choice([(LIST(INT), "[]", LIST("any")), (OPT(INT), "none", OPT("any")), (LIST(STR), "[]", LIST("any")),
+                                     (OPT(STR), "none", OPT("any"))])
+            env[-1][name] = ty
+            return N("let", ty, [f"let {name}: {src_type(ty)} = ", N("anylit", lty, [lit]), ";"], name=name, annotated=True)
         if c < 0.37:
             f("println")
             return N("exprS", None, [self.println(env, d), ";"])
@@ -682,7 +690,7 @@ def tree_mutations(rng, tree):
             name = n.info["name"]
             e = n.parts[1]
             out.append(("unknownType", path, N("raw", None, [f"let {name}: ZzNope = ", e, ";"])))
-            if n.ty in WRONG or isinstance(n.ty, tuple) and n.ty[0] != "fn":
+            if (n.ty in WRONG or isinstance(n.ty, tuple) and n.ty[0] != "fn") and e.kind != "anylit":
                 other = rng.choice([t for t in (INT, STR, BOOL, LIST(INT)) if t != n.ty])
                 out.append(("annotationMismatch", path, N("raw", None, [f"let {name}: {src_type(other)} = ", e, ";"])))
         if n.kind == "let" and n.info.get("is_global"):
@@ -759,6 +767,7 @@ def loop_context(tree):
     """Paths of blocks that are NOT inside a loop body (for break/continue faults), and of
     blocks that are lambda bodies lexically inside a loop."""
     outside, lam_in_loop, fn_rets = [], [], {}
+    IN_LOOP.clear()
 
     def go(n, path, in_loop, in_lambda_in_loop, ret):
         if n.kind == "fn":
@@ -772,6 +781,8 @@ def loop_context(tree):
                 outside.append(path)
                 if in_lambda_in_loop:
                     lam_in_loop.append(path)
+            else:
+                IN_LOOP.append(path)
             fn_rets[path] = ret
         for i, p in child_nodes(n):
             inl = in_loop or (n.kind in ("while", "loop", "for") and p.kind == "block")
@@ -780,9 +791,25 @@ def loop_context(tree):
     return outside, lam_in_loop, fn_rets
 
 
+IN_LOOP = []
+CLOSURE_RET = {INT: ('str', '"a"', '"zz"'), STR: ("int", "1", "7"), BOOL: ("int", "1", "7"), FLOAT: ("str", '"a"', '"zz"'),
+               NULL: ("int", "1", "7")}
+
+
 def context_mutations(rng, tree):
     out = []
     outside, lam_in_loop, fn_rets = loop_context(tree)
+    for path in list(IN_LOOP):
+        n = node_at(tree, path)
+        for kw in ("break", "continue"):
+            out.append((f"{kw}OutsideLoop:closure-in-loop", path,
+                        N("raw", None, [n.parts[0], f"let zz_l = fn() {{ if false {{ {kw}; }}; }}; ", *n.parts[1:]])))
+    for path, ret in fn_rets.items():
+        if ret in CLOSURE_RET:
+            n = node_at(tree, path)
+            cty, cval, bad = CLOSURE_RET[ret]
+            ins = f"let zz_l = fn() -> {cty} {{ {cval} }}; if false {{ return {bad}; }}; "
+            out.append(("returnMismatch:after-closure", path, N("raw", None, [n.parts[0], ins, *n.parts[1:]])))
     for path in outside:
         n = node_at(tree, path)
         for kw in ("break", "continue"):
@@ -917,57 +944,143 @@ def mutants_text(rng, src, k=6):
 # hand-written cases
 # ---------------------------------------------------------------------------------------
 TEMPL_HEAD = "import { templ FooFeature } from templates;\n$Lamp = { power: bool };\n"
+MODIFIERS = {0: "", 1: "pub ", 2: "event "}
 
 
-def impl(caps, methods):
-    with_ = f" with {{ {', '.join(caps)} }}" if caps is not None else ""
-    return TEMPL_HEAD + f"impl FooFeature{with_} for $Lamp {{\n" + "\n".join("    " + m for m in methods) + "\n}\nfn main() { }\n"
+def M(name, params, ret, modifier=0, extracts=True):
+    """abstract impl method: params [(name, type)], ret type (source syntax = sexp for primitives)"""
+    return {"name": name, "params": params, "ret": ret, "modifier": modifier, "extracts": extracts}
 
 
-DIM_OK = "fn dim(self: $Lamp, percent: int) -> bool { true }"
-TEMP_OK = "fn set_temp(self: $Lamp, celsius: float) { }"
+def method_text(m):
+    ps = (["self: $Lamp"] if m["extracts"] else []) + [f"{n}: {t}" for n, t in m["params"]]
+    body = {"null": "{ }", "bool": "{ true }", "int": "{ 1 }", "float": "{ 1.5 }", "str": '{ "s" }'}[m["ret"]]
+    ret = "" if m["ret"] == "null" else f" -> {m['ret']}"
+    return f"{MODIFIERS[m['modifier']]}fn {m['name']}({', '.join(ps)}){ret} {body}"
 
 
-def template_cases():
-    """(text, expect_error: bool, what) — decision table of validateTemplateConstraints/WithCapabilities."""
-    return [
-        (impl(["light"], [DIM_OK]), False, "required method present"),
-        (impl(["temperature"], [TEMP_OK]), False, "other capability"),
-        (impl(["light"], []), True, "required method missing"),
-        (impl(["light"], [DIM_OK, TEMP_OK]), True, "extra method"),
-        (impl(["light"], ["fn dim(self: $Lamp, percent: str) -> bool { true }"]), True, "parameter type mismatch"),
-        (impl(["light"], ["fn dim(self: $Lamp, pct: int) -> bool { true }"]), True, "parameter name mismatch"),
-        (impl(["light"], ["fn dim(self: $Lamp) -> bool { true }"]), True, "parameter count mismatch"),
-        (impl(["light"], ["fn dim(self: $Lamp, percent: int) -> int { 1 }"]), True, "return type mismatch"),
-        (impl(["light"], ["fn dim(self: $Lamp, percent: int) { }"]), True, "return type missing"),
-        (impl(["light"], ["pub fn dim(self: $Lamp, percent: int) -> bool { true }"]), True, "redundant modifier"),
-        (impl(["light"], ["event fn dim(self: $Lamp, percent: int) -> bool { true }"]), True, "redundant modifier (event)"),
-        (impl(["light"], ["fn dim(percent: int) -> bool { true }"]), True, "singleton not extracted"),
-        (impl(["light", "temperature"], [DIM_OK, TEMP_OK]), True, "conflicting capabilities"),
-        (impl(["zz_nope"], []), True, "unknown capability"),
-        (impl(["light"], [DIM_OK]).replace("impl FooFeature", "impl ZzNope"), True, "unknown template"),
-        (impl(["light"], [DIM_OK]).replace("for $Lamp", "for $ZzNope"), True, "unknown singleton"),
+def impl_text(caps, methods, template="FooFeature", singleton="$Lamp"):
+    with_ = f" with {{ {', '.join(caps)} }}" if caps else ""
+    return (TEMPL_HEAD + f"impl {template}{with_} for {singleton} {{\n" + "\n".join("    " + method_text(m) for m in methods)
+            + "\n}\nfn main() { }\n")
+
+
+def impl_sexp(caps, methods):
+    ms = " ".join("(%s (%s) %s %d %s)" % (hexs(m["name"]), " ".join(f"({hexs(n)} {t})" for n, t in m["params"]), m["ret"],
+                                         m["modifier"], "true" if m["extracts"] else "false") for m in methods)
+    return "(impl (%s) (%s))" % (" ".join(hexs(c) for c in caps), ms)
+
+
+DIM = M("dim", [("percent", "int")], "bool")
+TEMP = M("set_temp", [("celsius", "float")], "null")
+
+
+def template_cases(rng=None, n_random=0):
+    """(text, expect_error, what, abstract sexp or None) — decision table of
+    validateTemplateConstraints / WithCapabilities against the testing host's FooFeature."""
+    table = [
+        (["light"], [DIM], False, "required method present"),
+        (["temperature"], [TEMP], False, "other capability"),
+        (["light"], [], True, "required method missing"),
+        (["light"], [DIM, TEMP], True, "extra method"),
+        (["light"], [M("dim", [("percent", "str")], "bool")], True, "parameter type mismatch"),
+        (["light"], [M("dim", [("pct", "int")], "bool")], True, "parameter name mismatch"),
+        (["light"], [M("dim", [], "bool")], True, "parameter count mismatch"),
+        (["light"], [M("dim", [("percent", "int"), ("x", "int")], "bool")], True, "parameter count mismatch (more)"),
+        (["light"], [M("dim", [("percent", "int")], "int")], True, "return type mismatch"),
+        (["light"], [M("dim", [("percent", "int")], "null")], True, "return type missing"),
+        (["light"], [M("dim", [("percent", "int")], "bool", modifier=1)], True, "redundant modifier"),
+        (["light"], [M("dim", [("percent", "int")], "bool", modifier=2)], True, "redundant modifier (event)"),
+        (["light"], [M("dim", [("percent", "int")], "bool", extracts=False)], True, "singleton not extracted"),
+        (["light", "temperature"], [DIM, TEMP], True, "conflicting capabilities"),
+        (["temperature", "light"], [DIM, TEMP], True, "conflicting capabilities (other order)"),
+        (["zz_nope"], [], True, "unknown capability"),
+        (["light", "zz_nope"], [DIM], True, "unknown capability next to a known one"),
+        (["light", "light"], [DIM], False, "capability named twice"),
+        ([], [], False, "no capability, no method"),
+        ([], [DIM], True, "no capability but a method"),
     ]
+    out = [(impl_text(c, ms), err, what, impl_sexp(c, ms)) for c, ms, err, what in table]
+    if rng is not None:
+        tys = ["int", "bool", "float", "str", "null"]
+        for _ in range(n_random):
+            caps = [rng.choice(["light", "temperature", "light", "zz_nope"]) for _ in range(rng.randrange(0, 3))]
+            ms = []
+            for nm in rng.sample(["dim", "set_temp", "other"], rng.randrange(0, 4)):
+                base = {"dim": DIM, "set_temp": TEMP}.get(nm, M("other", [("a", "int")], "null"))
+                m = dict(base)
+                if rng.random() < 0.3:
+                    names = rng.sample(["percent", "celsius", "p"], rng.randrange(0, 3))
+                    m["params"] = [(nm_, rng.choice(tys[:4])) for nm_ in names]
+                if rng.random() < 0.2:
+                    m["ret"] = rng.choice(tys)
+                if rng.random() < 0.15:
+                    m["modifier"] = rng.choice([1, 2])
+                if rng.random() < 0.15:
+                    m["extracts"] = False
+                ms.append(m)
+            out.append((impl_text(caps, ms), None, "random", impl_sexp(caps, ms)))
+    out.append((impl_text(["light"], [DIM], template="ZzNope"), True, "unknown template", None))
+    out.append((impl_text(["light"], [DIM], singleton="$ZzNope"), True, "unknown singleton", None))
+    return out
 
 
 TRIG_HEAD = "import { trigger minute } from triggers;\n"
+ARG_LIT = {"int": "5", "str": '"x"', "bool": "true", "float": "1.5", "null": "null"}
 
 
-def trigger_cases():
-    return [
-        (TRIG_HEAD + "event fn cb(elapsed: int) { }\nfn main() { trigger cb at minute(5); }\n", False, "well-shaped callback"),
-        (TRIG_HEAD + "event fn cb(n: int) { }\nfn main() { trigger cb at minute(5); }\n", False, "parameter name differs (allowed)"),
-        (TRIG_HEAD + "event fn cb(elapsed: str) { }\nfn main() { trigger cb at minute(5); }\n", True, "callback parameter type"),
-        (TRIG_HEAD + "event fn cb() { }\nfn main() { trigger cb at minute(5); }\n", True, "callback parameter count"),
-        (TRIG_HEAD + "event fn cb(elapsed: int) -> int { 1 }\nfn main() { trigger cb at minute(5); }\n", True, "callback return type"),
-        (TRIG_HEAD + "fn cb(elapsed: int) { }\nfn main() { trigger cb at minute(5); }\n", True, "callback without event modifier"),
-        (TRIG_HEAD + "pub fn cb(elapsed: int) { }\nfn main() { trigger cb at minute(5); }\n", True, "callback with pub modifier"),
-        (TRIG_HEAD + "event fn cb(elapsed: int) { }\nfn main() { trigger cb at minute(\"x\"); }\n", True, "trigger argument type"),
-        (TRIG_HEAD + "event fn cb(elapsed: int) { }\nfn main() { trigger cb at minute(); }\n", True, "trigger argument count"),
-        (TRIG_HEAD + "event fn cb(elapsed: int) { }\nfn main() { trigger zz at minute(5); }\n", True, "unknown callback"),
-        ("event fn cb(elapsed: int) { }\nfn main() { trigger cb at zz_nope(5); }\n", True, "unknown trigger"),
-        (TRIG_HEAD + "event fn cb(elapsed: int) { trigger cb at minute(5); }\nfn main() { }\n", True, "trigger from itself"),
+def trig_case(known=True, cb_known=True, itself=False, modifier=2, params=(("elapsed", "int"),), ret="null", args=("int",)):
+    """-> (program text, abstract sexp) of one row of the trigger decision table"""
+    body = {"null": "", "bool": "true", "int": "1", "float": "1.5", "str": '"s"'}[ret]
+    rs = "" if ret == "null" else f" -> {ret}"
+    stmt = f"trigger {'cb' if cb_known else 'zz_nope'} at {'minute' if known else 'zz_trig'}({', '.join(ARG_LIT[a] for a in args)});"
+    sig = ", ".join(f"{n}: {t}" for n, t in params)
+    cb_body = f"{{ {stmt} {body} }}" if itself else f"{{ {body} }}"
+    main = "fn main() { }" if itself else f"fn main() {{ {stmt} }}"
+    text = (TRIG_HEAD if known else "") + f"{MODIFIERS[modifier]}fn cb({sig}){rs} {cb_body}\n{main}\n"
+    sexp = "(trig %s %s %s %d (%s) %s (%s))" % ("true" if known else "false", "true" if cb_known else "false",
+                                               "true" if itself else "false", modifier,
+                                               " ".join(f"({hexs(n)} {t})" for n, t in params), ret, " ".join(args))
+    return text, sexp
+
+
+def trigger_cases(rng=None, n_random=0):
+    """(text, expect_error, what, abstract sexp)"""
+    table = [
+        (dict(), False, "well-shaped callback"),
+        (dict(params=(("n", "int"),)), False, "parameter name differs (allowed)"),
+        (dict(params=(("elapsed", "str"),)), True, "callback parameter type"),
+        (dict(params=(("n", "str"),)), True, "callback parameter type (other name)"),
+        (dict(params=()), True, "callback parameter count"),
+        (dict(params=(("elapsed", "int"), ("b", "int"))), True, "callback parameter count (more)"),
+        (dict(ret="int"), True, "callback return type"),
+        (dict(modifier=0), True, "callback without event modifier"),
+        (dict(modifier=1), True, "callback with pub modifier"),
+        (dict(args=("str",)), True, "trigger argument type"),
+        (dict(args=()), True, "trigger argument count"),
+        (dict(args=("int", "int")), True, "trigger argument count (more)"),
+        (dict(args=("null",)), True, "trigger argument without value"),
+        (dict(cb_known=False), True, "unknown callback"),
+        (dict(known=False), True, "unknown trigger"),
+        (dict(itself=True), True, "trigger from itself"),
     ]
+    out = []
+    for kw, err, what in table:
+        text, sexp = trig_case(**kw)
+        out.append((text, err, what, sexp))
+    if rng is not None:
+        tys = ["int", "str", "bool", "float"]
+        for _ in range(n_random):
+            names = rng.sample(["elapsed", "n", "b"], rng.randrange(0, 3))
+            kw = dict(known=rng.random() < 0.85, cb_known=rng.random() < 0.9, itself=rng.random() < 0.1,
+                      modifier=rng.choice([2, 2, 2, 0, 1]), params=tuple((n, rng.choice(tys)) for n in names),
+                      ret=rng.choice(["null", "null", "null", "int", "bool"]),
+                      args=tuple(rng.choice(tys + ["int", "int", "null"]) for _ in range(rng.choice([1, 1, 1, 0, 2]))))
+            if rng.random() < 0.5:
+                kw["params"] = (("elapsed", "int"),)
+            text, sexp = trig_case(**kw)
+            out.append((text, None, "random", sexp))
+    return out
 
 
 def fixed_cases():
